@@ -472,6 +472,37 @@ impl lettre::transport::smtp::client::AsyncTokioStream for InterruptingStream {
     fn peer_addr(&self) -> std::io::Result<std::net::SocketAddr> { self.inner.peer_addr() }
 }
 
+/// Another caller-supplied stream: one that keeps what is written until it is flushed (a BufWriter, a compressing or proxying wrapper).
+/// A client that forgets a flush leaves its peer waiting for octets it believes it has sent.
+#[derive(Debug)]
+struct BufferingStream { inner: tokio::net::TcpStream, buf: Vec<u8> }
+impl tokio::io::AsyncRead for BufferingStream {
+    fn poll_read(mut self: std::pin::Pin<&mut Self>, cx: &mut std::task::Context<'_>, buf: &mut tokio::io::ReadBuf<'_>) -> std::task::Poll<std::io::Result<()>> {
+        std::pin::Pin::new(&mut self.inner).poll_read(cx, buf)
+    }
+}
+impl tokio::io::AsyncWrite for BufferingStream {
+    fn poll_write(mut self: std::pin::Pin<&mut Self>, _cx: &mut std::task::Context<'_>, buf: &[u8]) -> std::task::Poll<std::io::Result<usize>> {
+        self.buf.extend_from_slice(buf);
+        std::task::Poll::Ready(Ok(buf.len()))
+    }
+    fn poll_flush(mut self: std::pin::Pin<&mut Self>, cx: &mut std::task::Context<'_>) -> std::task::Poll<std::io::Result<()>> {
+        let me = &mut *self;
+        while !me.buf.is_empty() {
+            match std::pin::Pin::new(&mut me.inner).poll_write(cx, &me.buf) {
+                std::task::Poll::Ready(Ok(n)) => { me.buf.drain(..n); }
+                std::task::Poll::Ready(Err(e)) => return std::task::Poll::Ready(Err(e)),
+                std::task::Poll::Pending => return std::task::Poll::Pending,
+            }
+        }
+        std::pin::Pin::new(&mut me.inner).poll_flush(cx)
+    }
+    fn poll_shutdown(mut self: std::pin::Pin<&mut Self>, cx: &mut std::task::Context<'_>) -> std::task::Poll<std::io::Result<()>> { std::pin::Pin::new(&mut self.inner).poll_shutdown(cx) }
+}
+impl lettre::transport::smtp::client::AsyncTokioStream for BufferingStream {
+    fn peer_addr(&self) -> std::io::Result<std::net::SocketAddr> { self.inner.peer_addr() }
+}
+
 async fn run_tokio(ops: &[Value], port: u16, timeout: Duration) -> (Vec<Value>, Vec<u64>) {
     let mut out = vec![];
     let mut ms: Vec<u64> = vec![];
@@ -496,6 +527,12 @@ async fn run_tokio(ops: &[Value], port: u16, timeout: Duration) -> (Vec<Value>, 
             "connect_wrapped" => {
                 let hello = ClientId::Domain(s_of(&op["hello"]));
                 match tokio::net::TcpStream::connect(("127.0.0.1", port)).await {
+                    Ok(s) if op["buffered"].as_bool() == Some(true) => {
+                        match AsyncSmtpConnection::connect_with_transport(Box::new(BufferingStream { inner: s, buf: vec![] }), &hello).await {
+                            Ok(c) => { let v = server_info_json(c.server_info().name(), c.server_info()); conn = Some(c); v }
+                            Err(e) => render_err(&e),
+                        }
+                    }
                     Ok(s) => {
                         let w = InterruptingStream { inner: s, k: op["k"].as_u64().unwrap_or(0) as usize, state: if op["k"].is_null() { 3 } else { 0 } };
                         match AsyncSmtpConnection::connect_with_transport(Box::new(w), &hello).await {
